@@ -188,23 +188,28 @@ def check_composition(ctx, rng, wtree):
     names, _ = gen.name_universe(ast_on + ast_off, rng, maxlen=3, sigma_cap=5, derivations=6,
                                  extra=[gen.derive(rng, ast_on, 'Aab1') or 'A', gen.derive(rng, ast_off, 'x41ab') or 'x'])
     for raw, ast in ((False, ast_off), (True, ast_on)):
-        for mod, fl in ((F, F.EXTMATCH | F.DOTMATCH), (G, G.EXTGLOB | G.DOTGLOB)):
+        modes = [(F, F.EXTMATCH | F.DOTMATCH, False), (G, G.EXTGLOB | G.DOTGLOB, False)]
+        if '\\\\' not in text:
+            # Windows mode (the pattern text is normalised there even without RAWCHARS): same meaning, ASCII case folded;
+            # an escaped backslash would be a separator there, such texts are left to C17
+            modes += [(F, F.EXTMATCH | F.DOTMATCH | F.FORCEWIN, True), (G, G.EXTGLOB | G.DOTGLOB | G.FORCEWIN, True)]
+        for mod, fl, icase in modes:
             m = outcome(lambda: mod.compile(text, flags=fl | (mod.RAWCHARS if raw else 0)))
             if isinstance(m, tuple):
                 ctx.disagree('composition of valid pieces failed to compile',
                              {'pattern': text, 'rawchars': raw, 'observed': m})
                 continue
             for nm in names:
-                if '/' in nm:
+                if '/' in nm or (icase and ('\\' in nm or not nm.isascii())):
                     continue
-                exp = R.seg_match3(ast, nm, True) if mod is F else R.seg3(ast, nm, True, False, False)
+                exp = R.seg_match3(ast, nm, True, icase) if mod is F else R.seg3(ast, nm, True, icase, False)
                 got = outcome(lambda: m.match(nm))
                 ctx.evals()
                 ctx.count('ast_judged')
                 if exp is not None and got is not exp:
                     ctx.disagree(f'meaning of escapes with RAWCHARS={raw} differs from the AST',
                                  {'pattern': text, 'rawchars': raw, 'name': nm, 'expected': exp, 'observed': got,
-                                  'api': mod.__name__})
+                                  'api': mod.__name__, 'forcewin': icase, 'mode': 'composition'})
                     break
     ctx.mark_nontrivial(('composition', text))
     if ctx.cases % 50 == 0:
@@ -364,6 +369,13 @@ def run(ctx):
 def replay(ctx, w):
     wtree = make_wtree()
     try:
+        if w.get('mode') == 'composition':
+            for k in range(1, 251):
+                for sh in range(16):
+                    check_composition(ctx, ctx.rng_for('comp', sh, k), None)
+                if ctx.violations:
+                    break
+            return ctx.violations or None
         if w.get('mode') == 'meta-escape':
             for k in range(1, 4000):
                 check_meta_escapes(ctx, ctx.rng_for('meta', k % 16, k // 16 + 1), wtree)
